@@ -130,17 +130,23 @@ def Ring.sweep {V : Type} (r : Ring V) : Ring V :=
 def Ring.sort {V : Type} (r : Ring V) : Ring V :=
   if !r.sorted then { r with entries := r.entries.mergeSort Entry.le, sorted := true } else r
 
+/-- The part of `Lookup` after the sweep and the sort: the probe loop over the
+entry table `E` with `P` probes, then the member-map read `mg`. -/
+def lookupRes {V : Type} (H : List Nat → Nat) (E : List Entry) (P : Nat) (mg : Key → Option V)
+    (q : Key) : Res V :=
+  match (List.range P).foldl (probeStep H E q) (some (2 ^ 64 - 1, 0)) with
+  | none => .panic
+  | some (_, bestIdx) =>
+    match E[bestIdx]? with
+    | none => .panic
+    | some e => .owner (mg e.key)
+
 /-- `Lookup(key)`: returns the mutated ring (sweep + sort) and the result. -/
 def Ring.lookup {V : Type} (H : List Nat → Nat) (r : Ring V) (key : Key) : Ring V × Res V :=
   if r.len = 0 then (r, .absent)
   else
-    let r2 := r.sweep.sort
-    match (List.range r2.probes).foldl (probeStep H r2.entries key) (some (2 ^ 64 - 1, 0)) with
-    | none => (r2, .panic)
-    | some (_, bestIdx) =>
-      match r2.entries[bestIdx]? with
-      | none => (r2, .panic)
-      | some e => (r2, .owner (mget r2.members e.key))
+    (r.sweep.sort,
+      lookupRes H r.sweep.sort.entries r.sweep.sort.probes (mget r.sweep.sort.members) key)
 
 /-! ### Histories -/
 
@@ -161,5 +167,24 @@ def Ring.run {V : Type} (H : List Nat → Nat) (r : Ring V) (ops : List (Op V)) 
 /-- The live member map: what `Len`/`Lookup` regard as the current members. -/
 def Ring.live {V : Type} (r : Ring V) (k : Key) : Option V :=
   if k ∈ r.deleted then none else mget r.members k
+
+
+/-! ### Specification of "the current member set"
+
+Independent of the ring's internals: `Insert` sets, `Remove` deletes, `Lookup`
+does not change the member set. -/
+
+def Op.apply {V : Type} (m : Key → Option V) : Op V → Key → Option V
+  | .insert k v => fun k' => if k' = k then some v else m k'
+  | .remove k => fun k' => if k' = k then none else m k'
+  | .lookup _ => m
+
+/-- The member set (key ↦ value) after a history, starting from no members. -/
+def memberMap {V : Type} (ops : List (Op V)) : Key → Option V :=
+  ops.foldl Op.apply (fun _ => none)
+
+/-- The history that builds a ring from a list of members, in list order. -/
+def insertAll {V : Type} (kvs : List (Key × V)) : List (Op V) :=
+  kvs.map (fun kv => Op.insert kv.1 kv.2)
 
 end CalicoVerif.C45
